@@ -758,13 +758,16 @@ func genPoolOrigin(c *lib.Ctx, tag string, scionTr bool) {
 						break
 					}
 				}
-				dl := 40
+				// an exchange that is not completed ends at the second refusal or — one datagram only — at the
+				// deadline; the deadline is far enough for the retry decision to see it ahead (op: retry=true)
+				dl := 250
 				if willAccept {
 					dl = 4000
 				}
 				op := exchOp{tr: tr, pool: pool, c2s: c2s, s2c: s2c, hdr: clientHdr(now), now: now, dl: dl, rnd: rnd, d: d}
+				resetHeartbeat()
 				res := runExch(op)
-				if !res.ran || res.accept != willAccept && time.Duration(dl)*time.Millisecond < res.elapsed+5*time.Millisecond {
+				if !res.ran || starved(100*time.Millisecond) || res.accept != willAccept && time.Duration(dl)*time.Millisecond < res.elapsed+5*time.Millisecond {
 					c.Count(tag + ":discarded")
 					continue
 				}
